@@ -2,9 +2,11 @@
 # try_seeded.sh <patch.diff> <prop>... : apply the change to /repo, run the quick checks, undo it.
 P=$1; shift
 V=$(cd "$(dirname "$0")/.." && pwd)
+rm -rf $V/build/evidence.saved && cp -r $V/evidence $V/build/evidence.saved   # evidence of the unchanged tree is kept
 git -C /repo apply $P || exit 2
 for p in "$@"; do $V/check $p quick | tail -1; done
 git -C /repo checkout -- .
 git -C /repo status --short
+rm -rf $V/evidence && mv $V/build/evidence.saved $V/evidence
 # leave the regenerated facts as they are for the unchanged tree
 $V/build/extract -repo /repo -out $V/lean/CorsVerif/Gen/Facts.lean
